@@ -753,7 +753,12 @@ class Rewriter:
                 new_kwarg_flag = True
                 old_extra_files = target.node.args.get_kwarg_or_default('extra_files', None)
                 target.node.args.kwargs = {k: v for k, v in target.node.args.kwargs.items() if not (isinstance(k, IdNode) and k.value == 'extra_files')}
-                new_extra_files_node = ArithmeticNode('+', old_extra_files, _symbol('+'), chosen)
+                if isinstance(self.interpreter.node_to_runtime_value(old_extra_files), str):
+                    # extra_files : 'README' is a single file, not a list one can add to
+                    chosen.args.arguments.append(old_extra_files)
+                    new_extra_files_node = chosen
+                else:
+                    new_extra_files_node = ArithmeticNode('+', old_extra_files, _symbol('+'), chosen)
 
             tgt_function.args.kwargs[extra_files_idnode] = new_extra_files_node
 
